@@ -18,6 +18,13 @@ CHECK_DEADLOCK FALSE
 KERNEL = {"events", "filter-inv", "refsync", "refupdate", "dupkey", "foreign-object"}
 ORDER = {"order-in", "order", "recv-unexplained", "lost-in-fanout", "lost-at-quiescence", "deq-unknown-stage", "stuck-at-quiescence"}
 CLASSES = {
+    "C03": KERNEL | ORDER | {"synced-list-not-from-server", "cache-not-current", "relisting-stopped", "ctl-events-differ", "close-hangs", "shutdown-timeout",
+                             "ready-before-sync", "publish-before-ready", "api-call-blocks"},
+    "C04": KERNEL | ORDER | {"cache-not-current", "resume-version", "frame-mistranslated", "frame-ignored", "drop-not-full", "drop-unknown",
+                             "watch-version-unknown", "ctl-events-differ", "stopped-without-cause", "watch-not-reestablished"},
+    "C13": {"lists-overlap", "list-too-early", "relisting-stopped", "close-hangs", "shutdown-timeout", "goroutine-leak"},
+    "C14": {"list-failure-not-fatal", "stopped-without-cause", "failure-not-reported", "ready-after-failed-first-list",
+            "deliberate-close-reports-failure", "shutdown-timeout", "close-hangs"},
     "C05": ORDER | {"cache-older-than-event", "ctl-events-differ"},
     "C06": KERNEL | {"filter-not-quiescent", "filter-not-set", "fsub-events-differ", "fsub-emits-other", "events-not-emitted",
                      "sync-list-not-parent-listing", "list-not-snapshot", "lost-at-quiescence", "stuck-at-quiescence", "order", "recv-unexplained"},
@@ -28,21 +35,28 @@ CLASSES = {
             "callback-before-ready", "flag-mismatch"},
     "C10": ORDER | {"drop-not-full", "drop-unknown", "cache-not-current", "close-hangs", "shutdown-timeout", "api-call-blocks"},
     "C11": {"stopped-outside-closed-subtree", "cascade-incomplete", "shutdown-timeout", "closed-before-drained", "close-hangs", "api-call-blocks"} | ORDER,
-    "C12": {"goroutine-leak", "shutdown-timeout", "close-hangs", "call-blocks-after-done", "call-fails-after-done", "closed-before-drained", "api-call-blocks"},
+    "C12": {"goroutine-leak", "shutdown-timeout", "close-hangs", "call-blocks-after-done", "call-fails-after-done", "closed-before-drained", "api-call-blocks",
+            "racing-call-zombie"},
     "C16": {"callbacks-overlap", "initialize-not-first-or-twice", "callback-before-ready", "callback-after-done", "initialize-not-cache-content",
             "callback-before-initialize", "callback-not-next-event", "callback-of-unknown-monitor", "stuck-at-quiescence"},
 }
 # (variant, share of the scenario budget)
 VARIANTS = {
+    "C03": [("ctl:relist", 1.0)],
+    "C04": [("ctl:watch", 1.0)],
     "C05": [("mixed", 0.7), ("close", 0.3)],
     "C06": [("refilter", 0.6), ("mixed", 0.4)],
     "C07": [("refilter", 1.0)],
     "C08": [("refilter", 0.5), ("mixed", 0.3), ("monitor", 0.2)],
     "C10": [("overflow", 1.0)],
     "C11": [("close", 0.6), ("monitor", 0.2), ("overflow", 0.2)],
-    "C12": [("close", 0.4), ("mixed", 0.3), ("overflow", 0.3)],
+    "C12": [("ctl:shutdown", 0.5), ("close", 0.2), ("mixed", 0.15), ("overflow", 0.15)],
+    "C13": [("ctl:timing", 1.0)],
+    "C14": [("ctl:listfail", 0.7), ("ctl:watch", 0.3)],
     "C16": [("monitor", 1.0)],
 }
+# scenarios per process for the real-time controller variants (quick, thorough)
+CTL_PER = {"relist": (6, 60), "watch": (1, 8), "listfail": (8, 80), "timing": (2, 15), "shutdown": (10, 100)}
 BUDGET = {"quick": 160, "thorough": 2400}
 NPROC = 16
 
@@ -54,16 +68,22 @@ def run_tree(prop, tier, res, want, variants, budget, events=100):
     for (variant, share) in variants:
         n = max(NPROC, int(budget * share))
         per = max(1, n // NPROC)
+        driver = "tree"
+        if variant.startswith("ctl:"):
+            driver, variant = "ctl", variant[4:]
+            per = max(1, int(CTL_PER[variant][0 if tier == "quick" else 1] * share))
         if variant == "overflow":
             # scenario idx selects the stream length {0,1,99,100,101,250,400,700}; these scenarios are long
             per = max(per // 4, 8) if tier == "thorough" else 2
         for p in range(NPROC):
-            out = os.path.join(sc, "tree-%s-%d.ndjson" % (variant, p))
+            out = os.path.join(sc, "%s-%s-%d.ndjson" % (driver, variant, p))
             files.append((variant, out))
-            cmds.append(([h, "tree", "-out", out, "-variant", variant, "-count", str(per), "-events", str(events),
-                          "-seed", str(vlib.seed() * 100 + p)], out + ".log", None))
+            argv = [h, driver, "-out", out, "-variant", variant, "-count", str(per), "-seed", str(vlib.seed() * 100 + p)]
+            if driver == "tree":
+                argv += ["-events", str(events)]
+            cmds.append((argv, out + ".log", None))
     t0 = time.time()
-    rcs = vlib.run_parallel(cmds, timeout=420, maxpar=NPROC)
+    rcs = vlib.run_parallel(cmds, timeout=420 if tier == "quick" else 1500, maxpar=NPROC)
     nscen = 0
     for (rc, (variant, f)) in zip(rcs, files):
         lg = open(f + ".log").read()
@@ -111,7 +131,7 @@ def run_tree(prop, tier, res, want, variants, budget, events=100):
     return nscen, lines, samples, allcls
 
 
-@family("C05", "C06", "C07", "C08", "C10", "C11", "C12", "C16")
+@family("C03", "C04", "C05", "C06", "C07", "C08", "C10", "C11", "C12", "C13", "C14", "C16")
 def check_tree(prop, tier, replay):
     res = vlib.Result(prop, tier, "model_checking")
     want = CLASSES[prop] | {"crash"}
